@@ -34,7 +34,7 @@ func (propC17) NewParams() any { return &C17Params{Only: -1} }
 
 func (propC17) Plan(tier string) (int, int) {
 	if tier == "thorough" {
-		return 20000, 0
+		return 150000, 0
 	}
 	return 600, 0
 }
